@@ -59,7 +59,7 @@ fn weight_interval(su: &Setup) -> Option<(f64, f64)> {
 /// Deterministic catalogue of configurations with closed-form values; `idx` selects the
 /// family, the parameters come from `rng`.
 pub fn make_config(rng: &mut Rng, idx: usize, allow_small_omega: bool) -> Option<Vec<Config>> {
-    let family = idx % 8;
+    let family = idx % 10;
     let mut out = vec![];
     let build = |g: GraphSpec, label: String, rng: &mut Rng, delta: Vec<f64>, exact_ln: f64, kin_fix: &dyn Fn(&mut Kin, &mut Rng)| -> Option<Vec<Config>> {
         let mut v = vec![];
@@ -242,6 +242,58 @@ pub fn make_config(rng: &mut Rng, idx: usize, allow_small_omega: bool) -> Option
             out.extend(build(g, label, rng, vec![delta, 0.0, 0.0], ln, &move |kin: &mut Kin, _r: &mut Rng| {
                 kin.masses[0] = Some(m);
             })?);
+        }
+        8 => {
+            // one-loop two-point function, any D, any masses and weights, test functions on both
+            // lines: momentum-space (radial x angular) tanh-sinh quadrature
+            let d = 1 + rng.below(6);
+            let dh = d as f64 / 2.0;
+            let (mut a, mut b);
+            loop {
+                a = d8(rng, 0.4, 3.0);
+                b = d8(rng, 0.4, 3.0);
+                if a + b > dh + 0.4 {
+                    break;
+                }
+            }
+            let delta = vec![*rng.pick(&[0.0, 0.5, 1.0]), *rng.pick(&[0.0, 0.75])];
+            let g = GraphSpec { edges: vec![(0, 1), (1, 0)], weights: vec![a, b], massive: vec![true, true], externals: vec![0, 1], d };
+            let label = format!("massive_bubble_quadrature(D={},a={},b={},delta={:?})", d, a, b, delta);
+            let cfgs = build(g, label, rng, delta.clone(), 0.0, &|_k: &mut Kin, _r: &mut Rng| {})?;
+            for mut c in cfgs {
+                let p2: f64 = c.su.kin.ext_mom[0].iter().map(|x| x * x).sum();
+                let (m1, m2) = (c.su.kin.masses[0].unwrap(), c.su.kin.masses[1].unwrap());
+                c.exact = crate::special::bubble_quadrature(d, a + delta[0], b + delta[1], m1, m2, p2.sqrt());
+                out.push(c);
+            }
+        }
+        9 => {
+            // massive banana with n = 2..5 unit-weight lines in D = 1 (1 to 4 loops, external
+            // momentum, non-trivial L matrix): (2 pi)^(n-1) 2M / ((M^2+p^2) prod 2 m_i), M = sum m_i;
+            // optional test function 1/(q_0^2+m_0^2): -(1/2m_0) d/dm_0 of the same expression
+            let n = 2 + rng.below(4);
+            let with_g = rng.chance(0.5);
+            let mut delta = vec![0.0; n];
+            if with_g {
+                delta[0] = 1.0;
+            }
+            let g = GraphSpec { edges: (0..n).map(|i| if i % 2 == 0 { (0, 1) } else { (1, 0) }).collect(), weights: vec![1.0; n], massive: vec![true; n], externals: vec![0, 1], d: 1 };
+            let label = format!("massive_banana_D1(lines={},test_function={})", n, with_g);
+            let cfgs = build(g, label, rng, delta, 0.0, &|_k: &mut Kin, _r: &mut Rng| {})?;
+            for mut c in cfgs {
+                let p2: f64 = c.su.kin.ext_mom[0].iter().map(|x| x * x).sum();
+                let ms: Vec<f64> = c.su.kin.masses.iter().map(|m| m.unwrap()).collect();
+                let big_m: f64 = ms.iter().sum();
+                let pref = (2.0 * PI).powi(n as i32 - 1) / ms.iter().map(|m| 2.0 * m).product::<f64>();
+                let aa = 2.0 * big_m / (big_m * big_m + p2);
+                c.exact = if with_g {
+                    let da = 2.0 / (big_m * big_m + p2) - 4.0 * big_m * big_m / ((big_m * big_m + p2) * (big_m * big_m + p2));
+                    -(1.0 / (2.0 * ms[0])) * pref * (da - aa / ms[0])
+                } else {
+                    pref * aa
+                };
+                out.push(c);
+            }
         }
         _ => {
             // massive bubble with unit weights, D = 1 or 3
@@ -461,7 +513,12 @@ fn z_eff(t: &Tally, c: &Config) -> f64 {
 }
 
 pub fn run(ctx: &Ctx) -> i32 {
-    let n_cfg_idx = ctx.n(24, 80);
+    let qerr = crate::special::quadrature_self_test();
+    if !(qerr < 1e-10) {
+        out(&format!("INCONCLUSIVE property=C01 quadrature oracle self-test failed: {:e}", qerr));
+        return 3;
+    }
+    let n_cfg_idx = ctx.n(30, 100);
     let n1: usize = ctx.n(400_000, 16_000_000);
     let batches = 64usize;
     // build the catalogue (deterministic in the seed)
@@ -597,13 +654,15 @@ pub fn run(ctx: &Ctx) -> i32 {
         }
     }
     let mut fin = Finish::new(
-        "catalogue of configurations with closed-form integrals (rose of massive tadpoles with shifts and arbitrary unimodular routings; massless bubble; massless 3- and 4-line bananas; chain of two bubbles; 2-loop vacuum sunrise with one massive line; massive unit-weight bubble in D=1,3), D=1..6, dyadic weights, \
+        "catalogue of configurations with independently known integrals (rose of massive tadpoles with shifts and arbitrary unimodular routings; massless bubble; massless 3- and 4-line bananas; chain of two bubbles; 2-loop vacuum sunrise with one massive line; massive unit-weight bubble in D=1,3; \
+         general massive one-loop two-point function for any D, weights and masses by momentum-space tanh-sinh quadrature; massive 2-5 line banana in D=1 with 1-4 loops), D=1..6, dyadic weights, \
          each under two different routings; bounded test functions prod_e (q_e^2+m_e^2)^(-delta_e) on massive lines (closed form at shifted weights). N calls of generate_sample_from_rng in 64 batches; errors contribute 0 and are counted (fraction > 1e-5 is a failure); \
          non-finite or out-of-interval weights are re-evaluated at the same point in double-double. Sequential rule: |z|<4 at N1, else |z|<5 at 8 N1, else violation iff |z|>6 at 64 N1. distinct = distinct configurations",
     )
     .assume("central limit theorem for the batch means (weights are bounded by C02); Lanczos Gamma accurate to 1e-14")
     .extra("per_configuration", Value::Array(report))
     .extra("stage1_samples_per_configuration", json!(n1))
+    .extra("quadrature_oracle_self_test_max_relative_error", json!(qerr))
     .min(1000);
     if inconclusive_cfgs > 0 {
         fin.inconclusive.push(format!("{} configurations ended with 5<=|z|<=6 at stage 3", inconclusive_cfgs));
